@@ -63,6 +63,7 @@ type RunResult struct {
 	NReq     int
 	Failures []string // hangs, leaks, unexpected requests (implementation or harness level)
 	Hung     bool     // the watchdog fired: the pipeline may still be running against the store
+	LateSent int      // late status deliveries the runner took
 	srv      *Server
 	text     string
 }
@@ -157,6 +158,12 @@ func execRun(st *Store, sc Scenario, auto bool) (res RunResult) {
 	w := &scriptedWatcher{univ: sc.Univ, env: sc.Env, clock: clock, board: bd, cancel: cancel}
 	cons := newConsumer(sc.Univ, clock, bd, sc.Opts.Destroy)
 	w.auto, w.st, w.plan = auto, st, func() []planGroup { return cons.initPlan }
+	if !auto && !sc.Opts.StatusEvents {
+		w.late, cons.late = map[int]LateSpec{}, map[int]bool{}
+		for _, l := range sc.Late {
+			w.late[l.Wait], cons.late[l.Wait] = l, true
+		}
+	}
 	srv.barrier = cons.barrier
 	srv.afterCancel = w.afterCancel
 	w.syncConsumer = cons.barrier
@@ -235,7 +242,7 @@ func execRun(st *Store, sc Scenario, auto bool) (res RunResult) {
 	res.Out = Outcome{Trace: items, Final: st.Observe()}
 	res.Addrs, res.Plan, res.NReq = addrs, cons.initPlan, nreq
 	w.mu.Lock()
-	res.Waits = w.autoWaits
+	res.Waits, res.LateSent = w.autoWaits, w.lateSent
 	w.mu.Unlock()
 	for _, u := range unexpected {
 		res.Failures = append(res.Failures, "unexpected request: "+u)
